@@ -100,7 +100,24 @@ def _rename(fn, names):
     # defaults/decorators are evaluated in the enclosing scope: untouched
 
 
+def flipped_source(src):
+    """every plain `if T: A else: B` becomes `if not T: B else: A`: same behaviour, other shape"""
+    mod = ast.parse(src)
+    count = 0
+    for n in ast.walk(mod):
+        # plain if/else only: nobody rewrites an elif chain inside out
+        if isinstance(n, ast.If) and n.orelse and not (len(n.orelse) == 1 and isinstance(n.orelse[0], ast.If)) \
+                and not (len(n.body) == 1 and isinstance(n.body[0], ast.If) and n.body[0].orelse):
+            t = n.test
+            n.test = t.operand if isinstance(t, ast.UnaryOp) and isinstance(t.op, ast.Not) else ast.UnaryOp(op=ast.Not(), operand=t)
+            n.body, n.orelse = n.orelse, n.body
+            count += 1
+    return ast.unparse(ast.fix_missing_locations(mod)), count
+
+
 def renamed_source(src):
+    if os.environ.get("RN_TRANSFORM") == "flip":
+        return flipped_source(src)
     mod = ast.parse(src)
     count = 0
     # outermost functions first; nested functions are handled when met on their own (their own locals)
